@@ -279,8 +279,8 @@ CLAIMED = {
                 "specification decodes, or exactly what the model of an open finding computes. Sheet names, hyperlink "
                 "targets/locations, table columns and defined-name names are compared as attribute values.",
         "note": TRUST + ", pydec/xlsx.py + pydec/decode_extract.py + pydec/build_xlsx.py. Decimal text to double, ST_Xstring "
-                        "unescaping, XML parsing and white-space trimming happen in pydec outside TLC; a <t> with outer white "
-                        "space but no xml:space=preserve, applyNumberFormat=0 and builtin formats outside ECMA-376 18.8.30 are not "
+                        "unescaping, XML parsing and white-space trimming happen in pydec outside TLC; outer white space of "
+                        "<t> runs not protected by xml:space=preserve (everything else of such a run is judged), applyNumberFormat=0 and builtin formats outside ECMA-376 18.8.30 are not "
                         "judged; formula texts may differ in optional blanks.",
         "technique": "explicit TLA+ spec (Decode.tla + Formula.tla) model-checked with TLC; TLC-generated file models written to "
                      "bytes and loaded by the library; TLC trace validation with exact deviation models",
